@@ -98,6 +98,14 @@ func init() {
 			ev.H = lnHint(w.x, w.c.P)
 			g.emit(ev, "pow/witness")
 		}
+		// precisions 52..60 (the constant tables of ln 10 and 1/ln 10 are used to their full length): operands that need a
+		// range reduction by a power of ten
+		for i := 0; i < g.pick(12, 200); i++ {
+			c := Ctx{P: g.R.between(52, 60), Emin: -100000, Emax: 100000, R: modeNames[g.R.Intn(8)]}
+			x := finDec(false, g.R.digits(g.R.between(1, 9)), g.R.between(-40, 40))
+			op := []string{"ln", "log10"}[i%2]
+			g.emit(mkA(op, c, x, x, 0, "", fresh), op+"/p52-60")
+		}
 		n := g.pick(1800, 45000)
 		for i := 0; i < n; i++ {
 			p := g.R.between(1, 12)
